@@ -226,6 +226,26 @@ func checkC13(c *hx.Checker) {
 			jobs = append(jobs, job{newModelCase(mb, feed, "outputs", exp, hx.Num, ""), fmt.Sprintf("shared-symbolic-names/%v", sz), []string{"multi", "shared-symbolic-name"}, true})
 		}
 	}
+	// inputs declared without a shape (type only / name only) or with rank 0 carry no constraint a supplied tensor
+	// could violate: every tensor is accepted for them (missing ones are still reported by the node that reads them)
+	{
+		g := &onnx.GraphProto{Name: "g"}
+		g.Input = append(g.Input, hx.ValueInfoTypeOnly("p", ref.F32), hx.ValueInfoNoShape("q"), hx.ValueInfo("r", ref.F32, hx.FixedDims([]int{2})))
+		for _, n := range []string{"p", "q", "r"} {
+			g.Node = append(g.Node, hx.Node("Relu", []string{n}, []string{"y_" + n}, nil))
+			g.Output = append(g.Output, hx.ValueInfoNoShape("y_"+n))
+		}
+		mb := hx.Marshal(hx.Model(g, 13))
+		for _, shp := range [][2][]int{{{}, {3}}, {{2}, {2, 2}}, {{1, 2, 3}, {}}, {{4, 1}, {1}}} {
+			feed := map[string]*ref.T{"p": ref.Distinct(ref.F32, shp[0]), "q": ref.Distinct(ref.F32, shp[1]), "r": ref.Distinct(ref.F32, []int{2})}
+			exp := map[string]*ref.T{}
+			for n, t := range feed {
+				e, _ := ref.Unary("Relu", t)
+				exp["y_"+n] = e
+			}
+			jobs = append(jobs, job{newModelCase(mb, feed, "outputs", exp, hx.Num, ""), fmt.Sprintf("shapeless-inputs/%v", shp), []string{"multi", "shapeless-declaration"}, true})
+		}
+	}
 	// an initializer-backed input is validated against its DECLARATION (here [N,3]; the default has 2 rows), not
 	// against the default's shape: other row counts are accepted, a wrong fixed dim or rank is refused
 	{
